@@ -1001,6 +1001,12 @@ def c11_neighbours_family() -> list:
                 # subscriber arrives while the call waits and outlives it
                 out.append((cfg, base + [("ev", "call", "c1", mode, 1)] + g + [("ev", "sub", 1, kind, "none")] + g + [("ev", "chunk", resp), ("idle",),
                             ("ev", "chunk", resp), ("idle",), ("ev", "unsub", 1), ("ev", "chunk", resp), ("idle",), ("tick",)]))
+                # a graceful disconnect is in flight when the connection fails: the pending call still gets the
+                # connection's error (the first fatal cause), not a bare "connection closed"
+                for closer in ([("ev", "reset", "reset")], [("ev", "reset", "timedout")], [("ev", "eof")], [("ev", "shortframe", 1)],
+                               [("ev", "writefail", True), ("ev", "chunk", [{"k": "pingreq"}])], [("ev", "chunk", [{"k": "garbage"}])]):
+                    out.append((cfg, base + [("ev", "call", "c1", mode, 1)] + g + [("ev", "disconnect")] + g + closer + [("idle",), ("tick",), ("tick",)]))
+                    out.append((cfg, base + [("ev", "call", "c1", mode, 1)] + g + [("ev", "chunk", [{"k": "pingreq"}])] + closer + [("idle",), ("tick",)]))
                 # two calls on the same type, the first one cancelled / timed out while the second waits
                 out.append((cfg, base + [("ev", "call", "c1", mode, 1), ("ev", "call", "c2", mode, 1)] + g + [("ev", "cancel_call", "c1")] + g +
                             [("ev", "chunk", resp), ("idle",), ("tick",)]))
